@@ -4,6 +4,11 @@ from scipy.optimize._numdiff import approx_derivative
 FD_METHODS = ("2-point", "3-point", "cs")
 
 
+class _StopIterationCarrier(Exception):
+    """Carries a StopIteration raised by the user's objective out of the
+    finite-difference routine (see ``fun_in_bounds`` and ``_update_grad``)."""
+
+
 class ScalarFunction:
     """Scalar function and its derivatives.
 
@@ -145,10 +150,17 @@ class ScalarFunction:
                 # The differencing routine shrinks or flips its steps to stay within
                 # the bounds, but `x + h` can still round one ulp past a bound:
                 # project the (real) stencil point back before evaluating.
-                if np.iscomplexobj(x):
-                    return fun_wrapped(x)
-                _lb, _ub = finite_diff_options["bounds"]
-                return fun_wrapped(np.clip(x, _lb, _ub))
+                try:
+                    if np.iscomplexobj(x):
+                        return fun_wrapped(x)
+                    _lb, _ub = finite_diff_options["bounds"]
+                    return fun_wrapped(np.clip(x, _lb, _ub))
+                except StopIteration as e:
+                    # The differencing routine evaluates its stencil inside an iterator:
+                    # a StopIteration raised by the objective would end that iteration
+                    # silently and a gradient built from a truncated stencil would come
+                    # back. Carry it out of the routine; _update_grad re-raises it.
+                    raise _StopIterationCarrier(e) from None
 
             def update_grad():
                 self._update_fun()
@@ -179,7 +191,10 @@ class ScalarFunction:
 
     def _update_grad(self) -> None:
         if not self.g_updated:
-            self._update_grad_impl()
+            try:
+                self._update_grad_impl()
+            except _StopIterationCarrier as carrier:
+                raise carrier.args[0] from None
             self.g_updated = True
 
     def fun(self, x) -> float:
